@@ -96,6 +96,20 @@ package vnet
 //@        chNet[ref(c)] == "udp" && chLen[ref(c)] == len(c.userData) && chStamp[ref(c)] == c.chunkIP.timestamp &&
 //@        (forall i mathint :: {c.userData[i]} 0 <= i && i < len(c.userData) ==> c.userData[i] == dataByte(chData[ref(c)], i))
 
+// the concrete accessors of the embedded chunkIP return / set the field they are named after (their link to the abstract
+// view - the Chunk interface contracts - goes through coupled(c), which names the same fields)
+//@ func (c *chunkIP) getSourceIP() (r net.IP)
+//@   ensures [field] r == c.sourceIP
+//@ func (c *chunkIP) getDestinationIP() (r net.IP)
+//@   ensures [field] r == c.destinationIP
+//@ func (c *chunkIP) getTimestamp() (t time.Time)
+//@   ensures [field] t == c.timestamp
+//@ func (c *chunkIP) setTimestamp() (t time.Time)
+//@   modifies clock, c.timestamp
+//@   ensures [stamp] clock >= old(clock) && t == clock && c.timestamp == clock
+//@ func (c *chunkIP) Tag() (r string)
+//@   ensures [field] r == c.tag
+
 //@ func (c *chunkUDP) SourceAddr() (r net.Addr)
 //@   requires coupled(c)
 //@   ensures r != nil && typeis(r, *net.UDPAddr) && fresh(ptr(r, *net.UDPAddr)) && udpStr(ipStr[base(ptr(r, *net.UDPAddr).IP)], ptr(r, *net.UDPAddr).Port) == chSrc[ref(c)]
